@@ -422,10 +422,69 @@ def edge_focus_specs(draw, o=None):
 
 
 @st.composite
+def special_shapes(draw, o=None):
+    """The combinations histogrammar.specialized recognises (1-D / 2-D histograms, profiles, stacked / partitioned /
+    fractioned histograms) and their near misses (another leaf, one level more): objects of these shapes get mixin
+    classes with extra methods - and lose or change them - depending on how they were built."""
+    o = o or TreeOpts()
+    fl = lambda: draw(st.sampled_from(o.flavours))  # noqa: E731
+    leaf_k = draw(st.sampled_from(("Count", "Count", "Count", "Average", "Deviate", "Sum")))
+    cols = iter(("x", "y", "z", "x", "y"))
+
+    def leaf():
+        if leaf_k == "Count":
+            return {"k": "Count"}
+        return {"k": leaf_k, "q": {"t": "num", "col": "z", "fl": fl()}}
+
+    def node(kind, value):
+        q = {"t": "num", "col": next(cols), "fl": fl()}
+        if kind == "Bin":
+            c = draw(bin_cfgs(min(4, o.max_bins)))
+            return {"k": "Bin", "num": c["num"], "low": c["low"], "high": c["high"], "fam": c["fam"], "q": q, "value": value,
+                    "underflow": {"k": "Count"}, "overflow": {"k": "Count"}, "nanflow": {"k": "Count"}}
+        if kind == "SparselyBin":
+            c = draw(sparse_cfgs())
+            return {"k": "SparselyBin", "binWidth": c["binWidth"], "origin": c["origin"], "fam": c["fam"], "q": q, "value": value, "nanflow": {"k": "Count"}}
+        if kind == "IrregularlyBin":
+            return {"k": "IrregularlyBin", "edges": draw(edge_lists(3, 1)), "q": q, "value": value, "nanflow": {"k": "Count"}}
+        if kind == "CentrallyBin":
+            return {"k": "CentrallyBin", "centers": draw(center_lists(4)), "q": q, "value": value, "nanflow": {"k": "Count"}}
+        if kind == "Stack":
+            return {"k": "Stack", "thresholds": draw(edge_lists(3, 1)), "q": q, "value": value, "nanflow": {"k": "Count"}}
+        if kind == "Categorize":
+            return {"k": "Categorize", "q": {"t": "cat", "col": draw(st.sampled_from(o.cat_cols)), "fl": fl()}, "value": value}
+        if kind == "Select":
+            return {"k": "Select", "q": draw(sel_q(o.flavours)), "cut": value}
+        if kind == "Fraction":
+            return {"k": "Fraction", "q": draw(sel_q(o.flavours)), "value": value}
+        raise ValueError(kind)
+
+    allowed = [k for k in ("Bin", "SparselyBin", "IrregularlyBin") if k in o.kinds] or ["Bin"]
+    shape = draw(st.sampled_from(("1d", "2d", "2d", "3d", "over", "over")))
+    if shape == "1d":
+        ks = [k for k in ("Bin", "SparselyBin", "IrregularlyBin", "CentrallyBin", "Categorize") if k in o.kinds] or ["Bin"]
+        return node(draw(st.sampled_from(ks)), leaf())
+    if shape == "2d":
+        k = draw(st.sampled_from(allowed))
+        return node(k, node(k, leaf()))
+    if shape == "3d":
+        k = draw(st.sampled_from(allowed))
+        return node(k, node(k, node(draw(st.sampled_from(allowed)), leaf())))
+    inner = node(draw(st.sampled_from([k for k in ("Bin", "SparselyBin") if k in o.kinds] or ["Bin"])), leaf())
+    if "Select" in o.kinds and draw(st.booleans()):
+        inner = node("Select", inner)
+    outer = draw(st.sampled_from([k for k in ("Stack", "IrregularlyBin", "Fraction") if k in o.kinds] or ["Bin"]))
+    return node(outer, inner)
+
+
+@st.composite
 def specs_and_focus(draw, o=None, edge_share=3):
-    """(spec, focus): one case in `edge_share` is an edge-focused single binning node."""
+    """(spec, focus): one case in `edge_share` is an edge-focused single binning node; one in eight of the others has one
+    of the shapes that histogrammar.specialized recognises (or nearly recognises)."""
     if draw(st.integers(0, edge_share - 1)) == 0:
         return draw(edge_focus_specs(o)), True
+    if draw(st.integers(0, 7)) == 0:
+        return draw(special_shapes(o)), False
     return draw(tree_specs(o)), False
 
 
@@ -451,11 +510,17 @@ def split(seq, pts):
 
 
 @st.composite
-def recipes(draw, spec, max_rows=12, reload_ok=True, scale_ok=True, focus=False):
+def recipes(draw, spec, max_rows=12, reload_ok=True, scale_ok=True, focus=False, inf_weights=False):
     """How to reach a state of `spec`: fills, an optional merge with a second filled tree, an optional scaling,
     an optional copy(), an optional pickle round trip, and optionally a JSON reload (immutable form)."""
     stream, exactish = draw(streams(spec, max_rows=max_rows, focus=focus))
     rec = {"fills": [[r, w] for r, w in stream], "exactish": exactish}
+    if inf_weights and stream and draw(st.integers(0, 7)) == 0:
+        # counts that are not finite: an infinite weight, or two huge ones that overflow together
+        for _ in range(draw(st.integers(1, 2))):
+            row = stream[draw(st.integers(0, len(stream) - 1))][0]
+            for w in draw(st.sampled_from(((float("inf"),), (1e308, 1e308)))):
+                rec["fills"].append([row, w])
     if draw(st.integers(0, 3)) == 0:
         other, _ = draw(streams(spec, max_rows=max(2, max_rows // 2), focus=focus))
         rec["merge"] = [[r, w] for r, w in other]
